@@ -1,7 +1,8 @@
 (* Single entry point of the extracted model runner: name + argument -> observation. *)
 From Coq Require Import List NArith ZArith Bool.
-From NV Require Import Prelude.Str Prelude.Res Prelude.Sx Model.Url.
-From NV Require Spec.C19.
+From Coq Require Import QArith.
+From NV Require Import Prelude.Str Prelude.Res Prelude.Sx Model.Url Model.Redirect Model.Bucket Model.Ip.
+From NV Require Spec.C19 Spec.C16 Spec.C10 Spec.C09.
 Import ListNotations.
 Open Scope N_scope.
 
@@ -36,10 +37,103 @@ Definition read_parsed (l : list sx) : parsed :=
   {| p_host := as_str (nth 0 l (L [])); p_port := as_N (nth 1 l (L [])); p_path := as_str (nth 2 l (L []));
      p_query := as_str (nth 3 l (L [])); p_norm := as_str (nth 4 l (L [])) |}.
 
-Definition run (name : str) (arg : sx) : sx :=
+(* ---- C16 ---- *)
+Definition read_response (x : sx) : response :=
+  {| r_status := as_Z (nth_sx 0 x); r_meta := as_str (nth_sx 1 x); r_body := as_str (nth_sx 2 x) |}.
+Definition show_response (r : response) : list sx := [sZ (r_status r); A (r_meta r); A (r_body r)].
+(* table rows: (url response) ; _get_single = parse_url then table lookup *)
+Definition tab_of (ip6t t : sx) (u : str) : option response :=
+  match parse_url (ip6_of_table ip6t) u with
+  | Ok _ => match lookup_tab u (as_list t) with Some r => Some (read_response r) | None => None end
+  | _ => None
+  end.
+Definition fetch_of (ip6t t : sx) (_ : nat) (u : str) : res response :=
+  match parse_url (ip6_of_table ip6t) u with
+  | Ok _ => match lookup_tab u (as_list t) with
+            | Some r => Ok (read_response r)
+            | None => Err (lit "unscripted") []
+            end
+  | Err _ m => Err (lit "bad_url") m
+  | OutOfModel => OutOfModel
+  end.
+Definition show_outcome (o : outcome) : sx :=
+  match o with
+  | Final r => L (sT "final" :: show_response r)
+  | Fail k => L [sT "fail"; A k]
+  | OutOfFuel => L [sT "fuel"]
+  end.
+Definition read_outcome (x : sx) : outcome :=
+  match as_list x with
+  | A tag :: rest => if eqb tag (lit "final") then Final (read_response (L rest))
+                     else if eqb tag (lit "fail") then Fail (as_str (nth 0 rest (L [])))
+                     else OutOfFuel
+  | _ => OutOfFuel
+  end.
+Definition show_walk (r : outcome * list str) : sx := L [show_outcome (fst r); L (map A (snd r))].
+
+(* ---- C10 ---- *)
+Definition as_Q (x : sx) : Q :=
+  Qmake (as_Z (nth_sx 0 x)) (match as_N (nth_sx 1 x) with Npos p => p | N0 => 1%positive end).
+Definition read_event (x : sx) : event :=
+  if eqb (as_str (nth_sx 0 x)) (lit "r") then Req (as_Q (nth_sx 1 x)) (as_str (nth_sx 2 x))
+  else Cleanup (as_Q (nth_sx 1 x)).
+Definition read_log_entry (x : sx) : Q * str * bool :=
+  (as_Q (nth_sx 0 x), as_str (nth_sx 1 x), as_bool (nth_sx 2 x)).
+
+(* ---- C09 ---- *)
+Definition read_fam (x : sx) : fam := if eqb (as_str x) (lit "6") then V6 else V4.
+Definition read_net (x : sx) : net :=
+  {| n_fam := read_fam (nth_sx 0 x); n_base := as_N (nth_sx 1 x); n_plen := as_N (nth_sx 2 x) |}.
+Definition read_addr (x : sx) : option addr :=
+  match as_list x with
+  | [f; v] => Some {| a_fam := read_fam f; a_val := as_N v |}
+  | _ => None
+  end.
+Definition ipnet_of_table (t : sx) (s : str) : option net :=
+  match lookup_tab s (as_list t) with
+  | Some (L [f; b; p]) => Some (read_net (L [f; b; p]))
+  | _ => None
+  end.
+Definition read_olist (x : sx) : option (list str) :=
+  match as_opt x with Some l => Some (map as_str (as_list l)) | None => None end.
+Definition read_onet (x : sx) : option net :=
+  match as_list x with [f; b; p] => Some (read_net x) | _ => None end.
+
+Definition dispatch (name : str) (arg : sx) : sx :=
   if eqb name (lit "parse_url") then
     show_res show_parsed (parse_url (ip6_of_table (nth_sx 1 arg)) (as_str (nth_sx 0 arg)))
   else if eqb name (lit "C19.ok") then
     sB (Spec.C19.ok (read_res read_parsed (nth_sx 0 arg)) (read_res read_parsed (nth_sx 1 arg)))
+  else if eqb name (lit "follow") then
+    (* arg: follow max url table ip6table *)
+    show_walk (get (fetch_of (nth_sx 4 arg) (nth_sx 3 arg)) (as_bool (nth_sx 0 arg))
+                   (N.to_nat (as_N (nth_sx 1 arg))) (as_str (nth_sx 2 arg)))
+  else if eqb name (lit "C16.ok") then
+    (* arg: follow max url table ip6table outcome log *)
+    sB (Spec.C16.ok (tab_of (nth_sx 4 arg) (nth_sx 3 arg)) (as_bool (nth_sx 0 arg))
+          (N.to_nat (as_N (nth_sx 1 arg))) (as_str (nth_sx 2 arg))
+          (read_outcome (nth_sx 5 arg), map as_str (as_list (nth_sx 6 arg))))
+  else if eqb name (lit "bucket") then
+    (* arg: cap rate events *)
+    L (map (fun e => sB (snd e))
+         (Model.Bucket.run {| cap := as_Q (nth_sx 0 arg); rate := as_Q (nth_sx 1 arg) |} []
+                           (map read_event (as_list (nth_sx 2 arg)))))
+  else if eqb name (lit "C10.ok") then
+    sB (Spec.C10.ok {| cap := as_Q (nth_sx 0 arg); rate := as_Q (nth_sx 1 arg) |}
+                    (map read_log_entry (as_list (nth_sx 2 arg))))
+  else if eqb name (lit "acl") then
+    (* arg: enabled allow deny default peer nettable *)
+    match server_admits (ipnet_of_table (nth_sx 5 arg))
+            {| sc_enabled := as_bool (nth_sx 0 arg); sc_allow := read_olist (nth_sx 1 arg);
+               sc_deny := read_olist (nth_sx 2 arg); sc_default := as_bool (nth_sx 3 arg) |}
+            (read_addr (nth_sx 4 arg)) with
+    | Some b => L [sT "admit"; sB b]
+    | None => L [sT "startup-error"]
+    end
+  else if eqb name (lit "C09.ok") then
+    (* arg: enabled allow_entries deny_entries default peer observed *)
+    sB (Spec.C09.ok (as_bool (nth_sx 0 arg)) (map read_onet (as_list (nth_sx 1 arg)))
+          (map read_onet (as_list (nth_sx 2 arg))) (as_bool (nth_sx 3 arg)) (read_addr (nth_sx 4 arg))
+          (match as_list (nth_sx 5 arg) with [A t; b] => if eqb t (lit "admit") then Some (as_bool b) else None | _ => None end))
   else L [sT "unknown-model"; A name].
 Close Scope N_scope.
